@@ -25,7 +25,7 @@ use crate::cachex;
 use crate::engine::{idx, Case, Ctx, Sm64};
 use crate::gen::shard::{materialize, shard_spec, unkey, ShardModel, ShardSpec, K};
 
-pub const RULE: &str = "operation in {session-shard flush, consolidate_shards_in_directory, cache-shard export_with_expiration, LocalClient::put of a xorb, DiskCache::put with subsumed items / eviction} x generated prior history (existing shards / xorbs / cache items, thresholds, capacities; in ~40% of the cases the operation writes content identical to a prior item, so its final name already exists). A dry run under strace lists the mutating file-system calls (open with O_CREAT/O_TRUNC, write, rename, unlink, mkdir, rmdir, chmod, truncate) the single-threaded child issues after a marker call; the child is then re-run once per such call with SIGKILL injected at the entry of exactly that call (EVERY crash point of the operation), plus the uninterrupted run; each injected run is traced and must have died at the intended call. After each stop the directory is re-opened and checked: every file under a final name is complete and consistent with its name (shard: name = hash of content and it parses fully; xorb: both validators accept it for the hash in its name; cache item: length and CRC in the name match the content), every record retrievable from the durable state before the operation is still retrievable, re-open succeeds with leftovers present. non-trivial = a crash point strictly between the first and the last effect of an operation with >= 3 effects; distinct = (case fingerprint, crash point)";
+pub const RULE: &str = "operation in {session-shard flush, consolidate_shards_in_directory, cache-shard export_with_expiration, LocalClient::put of a xorb, DiskCache::put with subsumed items / eviction} x generated prior history (existing shards / xorbs / cache items, thresholds, capacities; in ~40% of the cases the operation writes content identical to a prior item, so its final name already exists, and in ~35% the prior shards are nested subsets of one another, so a union can equal one of its inputs). A dry run under strace lists the mutating file-system calls (open with O_CREAT/O_TRUNC, write, rename, unlink, mkdir, rmdir, chmod, truncate) the single-threaded child issues after a marker call; the child is then re-run once per such call with SIGKILL injected at the entry of exactly that call (EVERY crash point of the operation), plus the uninterrupted run; each injected run is traced and must have died at the intended call. After each stop the directory is re-opened and checked: every file under a final name is complete and consistent with its name (shard: name = hash of content and it parses fully; xorb: both validators accept it for the hash in its name; cache item: length and CRC in the name match the content), every record retrievable from the durable state before the operation is still retrievable, re-open succeeds with leftovers present. non-trivial = a crash point strictly between the first and the last effect of an operation with >= 3 effects; distinct = (case fingerprint, crash point)";
 
 pub const ASSUMPTIONS: &[&str] = &[
     "process-stop model: completed system calls persist, no power-loss reordering (as the property states)",
@@ -53,6 +53,10 @@ pub struct CrashCase {
     /// same xorb), so its final name already exists when it runs
     #[serde(default)]
     pub dup_of_prior: Option<u16>,
+    /// prior shards form a chain of nested subsets (each a subset of the one before, the operation's content a
+    /// subset of the last), so that a union can be byte-identical to one of its inputs
+    #[serde(default)]
+    pub nested: bool,
 }
 
 impl CrashCase {
@@ -88,8 +92,24 @@ fn case_strategy() -> impl Strategy<Value = CrashCase> {
         proptest::collection::vec(any::<u64>(), 0..5),
         any::<u64>(),
         proptest::option::weighted(0.4, any::<u16>()),
+        proptest::bool::weighted(0.35),
     )
-        .prop_map(|(op, universe, prior, seed, dup_of_prior)| CrashCase { op, universe, prior, seed, dup_of_prior })
+        .prop_map(|(op, universe, prior, seed, dup_of_prior, nested)| CrashCase { op, universe, prior, seed, dup_of_prior, nested })
+}
+
+/// prior puts of the cache scenario: up to three per prior seed, nested / disjoint / repeated ranges on two
+/// keys (repeated and covering puts delete earlier files, which varies the layout of the key directory)
+fn cache_prior_ops(c: &CrashCase) -> Vec<(u8, u32, u32)> {
+    let mut out = Vec::new();
+    for s in &c.prior {
+        for j in 0..(1 + (*s >> 20) % 3) {
+            let v = s.rotate_right(7 * j as u32) ^ j;
+            let k = (v % 2) as u8;
+            let a = (v >> 8) as u32 % 8;
+            out.push((k, a, (a + 1 + (a * 7 + k as u32 + j as u32) % 5).min(cachex::N_CHUNKS)));
+        }
+    }
+    out
 }
 
 fn subset(u: &ShardModel, seed: u64) -> ShardModel {
@@ -106,6 +126,31 @@ fn subset(u: &ShardModel, seed: u64) -> ShardModel {
         }
     }
     m
+}
+
+/// contents of the prior shards
+fn prior_models(c: &CrashCase, u: &ShardModel) -> Vec<ShardModel> {
+    let mut out: Vec<ShardModel> = Vec::new();
+    for s in &c.prior {
+        let m = match (c.nested, out.last()) {
+            (true, Some(prev)) => subset(prev, *s),
+            _ => subset(u, *s),
+        };
+        out.push(m);
+    }
+    out
+}
+
+/// content the operation under test writes
+fn op_model(c: &CrashCase, u: &ShardModel) -> ShardModel {
+    let pm = prior_models(c, u);
+    match c.dup_of_prior {
+        Some(i) if !pm.is_empty() => pm[idx(i, pm.len())].clone(),
+        _ => match (c.nested, pm.last()) {
+            (true, Some(prev)) => subset(prev, c.seed),
+            _ => subset(u, c.seed),
+        },
+    }
 }
 
 // ---------------------------------------------------------------------------------------------
@@ -138,13 +183,13 @@ pub fn child(spec_path: &Path) {
         OpKind::Flush => {
             let d = dir.join("shards");
             std::fs::create_dir_all(&d).unwrap();
-            for s in &c.prior {
-                let _ = subset(&u, *s).to_in_memory().write_to_directory(&d);
+            for m in prior_models(&c, &u) {
+                let _ = m.to_in_memory().write_to_directory(&d);
             }
             let rt = tokio::runtime::Builder::new_current_thread().enable_all().build().unwrap();
             rt.block_on(async {
                 let mgr = ShardFileManager::new_in_session_directory(&d).await.unwrap();
-                let m = subset(&u, c.op_seed());
+                let m = op_model(&c, &u);
                 for x in m.xorbs.values() {
                     mgr.add_cas_block(x.clone()).await.unwrap();
                 }
@@ -158,8 +203,8 @@ pub fn child(spec_path: &Path) {
         OpKind::Consolidate { threshold } => {
             let d = dir.join("shards");
             std::fs::create_dir_all(&d).unwrap();
-            for s in c.prior.iter().chain(std::iter::once(&c.op_seed())) {
-                let _ = subset(&u, *s).to_in_memory().write_to_directory(&d);
+            for m in prior_models(&c, &u).into_iter().chain(std::iter::once(op_model(&c, &u))) {
+                let _ = m.to_in_memory().write_to_directory(&d);
             }
             std::fs::create_dir(&marker).unwrap();
             let _ = consolidate_shards_in_directory(&d, *threshold as u64);
@@ -169,11 +214,15 @@ pub fn child(spec_path: &Path) {
             let d = dir.join("shards");
             std::fs::create_dir_all(&src).unwrap();
             std::fs::create_dir_all(&d).unwrap();
-            for s in &c.prior {
-                let _ = subset(&u, *s).to_in_memory().write_to_directory(&d);
+            for m in prior_models(&c, &u) {
+                let _ = m.to_in_memory().write_to_directory(&d);
             }
-            let p = subset(&u, c.op_seed()).to_in_memory().write_to_directory(&src).unwrap();
+            let p = op_model(&c, &u).to_in_memory().write_to_directory(&src).unwrap();
             let sf = MDBShardFile::load_from_file(&p).unwrap();
+            if c.dup_of_prior.is_some() {
+                // the same export already happened (same name if it falls into the same second)
+                let _ = sf.export_with_expiration(&d, Duration::from_secs(3600));
+            }
             std::fs::create_dir(&marker).unwrap();
             let _ = sf.export_with_expiration(&d, Duration::from_secs(3600));
         },
@@ -198,7 +247,7 @@ pub fn child(spec_path: &Path) {
             let capacity = crate::props::c13::capacity_of(*cap_kind, (c.seed % 700) as u16);
             let cache = cachex::open(&root, capacity).unwrap();
             // prior items: nested / disjoint ranges on two keys
-            let prior_ops: Vec<(u8, u32, u32)> = c.prior.iter().map(|s| ((*s % 2) as u8, (*s >> 8) as u32 % 8, 0)).map(|(k, a, _)| (k, a, (a + 1 + (a * 7 + k as u32) % 5).min(cachex::N_CHUNKS))).collect();
+            let prior_ops = cache_prior_ops(&c);
             for (k, a, b) in &prior_ops {
                 let (o, d) = cachex::range_data(*k, *a, *b);
                 let _ = cache.put(&cachex::key_of(*k), &cas_types::ChunkRange { start: *a, end: *b }, &o, &d);
@@ -366,25 +415,25 @@ fn verify(base: &Path, c: &CrashCase, completed: bool) -> Result<(), String> {
     let u = materialize(&c.universe);
     match &c.op {
         OpKind::Flush => {
-            let prior: Vec<ShardModel> = c.prior.iter().map(|s| subset(&u, *s)).collect();
+            let prior: Vec<ShardModel> = prior_models(c, &u);
             let (mut wf, mut wx) = model_keys(&prior);
             if completed {
-                let (f2, x2) = model_keys(&[subset(&u, c.op_seed())]);
+                let (f2, x2) = model_keys(&[op_model(c, &u)]);
                 wf.extend(f2);
                 wx.extend(x2);
             }
             verify_shard_dir(&base.join("shards"), &wf, &wx, "flush")
         },
         OpKind::Consolidate { .. } => {
-            let all: Vec<ShardModel> = c.prior.iter().chain(std::iter::once(&c.op_seed())).map(|s| subset(&u, *s)).collect();
+            let all: Vec<ShardModel> = prior_models(c, &u).into_iter().chain(std::iter::once(op_model(c, &u))).collect();
             let (wf, wx) = model_keys(&all);
             verify_shard_dir(&base.join("shards"), &wf, &wx, "consolidation")
         },
         OpKind::ExportExpiration => {
-            let prior: Vec<ShardModel> = c.prior.iter().map(|s| subset(&u, *s)).collect();
+            let prior: Vec<ShardModel> = prior_models(c, &u);
             let (mut wf, mut wx) = model_keys(&prior);
             if completed {
-                let (f2, x2) = model_keys(&[subset(&u, c.op_seed())]);
+                let (f2, x2) = model_keys(&[op_model(c, &u)]);
                 wf.extend(f2);
                 wx.extend(x2);
             }
@@ -450,7 +499,7 @@ fn verify(base: &Path, c: &CrashCase, completed: bool) -> Result<(), String> {
                 }
             }
             // the hit oracle holds for every range; with ample capacity earlier ranges stay retrievable
-            let prior_ops: Vec<(u8, u32, u32)> = c.prior.iter().map(|s| ((*s % 2) as u8, (*s >> 8) as u32 % 8, 0)).map(|(k, a, _)| (k, a, (a + 1 + (a * 7 + k as u32) % 5).min(cachex::N_CHUNKS))).collect();
+            let prior_ops = cache_prior_ops(c);
             for k in 0..2u8 {
                 for a in 0..cachex::N_CHUNKS {
                     for b in a + 1..=cachex::N_CHUNKS {
@@ -505,6 +554,9 @@ fn oracle(c: &CrashCase, info: &mut Case) -> Result<(), String> {
         OpKind::CachePut { .. } => "cache-put",
     };
     info.label(format!("op:{opname}"));
+    if c.nested && c.prior.len() >= 1 {
+        info.label(format!("op:{opname}:nested-prior-contents"));
+    }
     if c.dup_of_prior.is_some() && !c.prior.is_empty() {
         info.label(format!("op:{opname}:content-identical-to-a-prior-item"));
     }
